@@ -132,16 +132,16 @@ CLAIMED = {
          "Coq refinement proof (simulation relation) + operation-level correspondence with the real BadgerStore"),
  "C01": ("PROVED in Coq for static membership (C01_agreement, C01_agreement_prefix): for any two nodes reachable by any operation sequences (insertions in any order incl. "
          "late witnesses and invalid attempts, ProcessSigPool) over one fork-free event universe, delivered blocks with the same position are equal in index, "
-         "round-received, timestamp, transactions, internal transactions, frame (round, peers, roots, events, peer-set table) and peers, and the shorter chain is a "
-         "prefix of the longer. On the way: no consensus pass ever fails; the coordinate invariant (first descendants incl. the walk-stop rule, round equation); fame "
-         "agreement and stability with view_ok / same_history DISCHARGED; equal famous-witness sets (late witnesses are decided not famous by everybody); "
-         "round-received agreement; received sets of processed rounds are final; frames agree. The statement without distinct signature tie-break values is "
-         "REFUTED (24-event witness: sort order of two parentless events). Dynamic membership and forks across two honest nodes are not covered by the theorems: "
-         "the oracle evaluates agreement on real cores after every action of random, lagging-view, split-vote (coin rounds, inversions) and dynamic-membership "
-         "histories; every observable of every node is compared with the model after every action",
-         "21 theorems, no axioms; premises: event id determines the event (hash collision freedom), signature tie-break values pairwise distinct, static "
-         "membership (no accepted internal transaction), fork-free universe; signatures, state hash and receipts of a block are outside the compared tuple",
-         "Coq invariant proofs over operation lists (about 12000 lines: coordinates, strongly-see, rounds and frames as functions of ancestry, virtual-voting safety) + gossip-history correspondence + prefix-consistency oracle"),
+         "round-received, timestamp, transactions, internal transactions, frame and peers, and the shorter chain is a prefix of the longer. For DYNAMIC membership: "
+         "REFUTED as stated - two ledger forks found by the proof attempt and replayed on real cores on every run: (1) the six-round window is not enforced "
+         "(open known finding C01-window-fork: the order of delivery alone forks four honest validators after one join), (2) DecideFame took its quorum from the "
+         "wrong round's set (fixed in /repo 05eda0b; regression input). With the repaired quorum and under the locally checkable distance bound (gap_runb) plus "
+         "agreeing validator-set tables, fame, famous-witness sets and round-received are PROVED to agree under dynamic membership (abstract voting loop with "
+         "per-round set sizes). The oracle evaluates agreement on real cores after every action of random, lagging-view, split-vote (coin rounds, lone decider) "
+         "and dynamic-membership histories; every observable of every node is compared with the model after every action",
+         "38 theorems, no axioms; premises: event id determines the event, signature tie-break values pairwise distinct, fork-free universe; static membership for "
+         "the block-level theorems; distance bound + agreeing tables for the dynamic DAG/voting-level theorems; frame/block level under dynamic membership: oracle + correspondence",
+         "Coq invariant proofs over operation lists (about 20000 lines for the consensus core) + refutation / regression witnesses + gossip-history correspondence + prefix-consistency oracle + pinned fork replays"),
  "C03": ("PROVED in Coq (per-event mode, static membership, fork-free attempt sets): two topological insertion orders of one attempt set (valid and invalid "
          "attempts, possibly on two nodes) admit exactly the same events (C03_admission_order_independent) and give every event the same observables "
          "(C03_order_independent); a run over a superset admits a superset and the delivered transactions of a downward-closed prefix are a prefix "
